@@ -240,7 +240,8 @@ Definition verifies (r : shared * result (option bool)) : bool :=
 (* ---------------- labelled transition system over the shared table ---------------- *)
 (* e : the key configured for the calling entity's RSACrypto (the entity is identified by it) *)
 Inductive op :=
-| OGet (e : option keyid) (alg : str)                                   (* e.sec.sec_backend.get_signer(alg) *)
+| OGet (e : option keyid) (alg : str) (sigkey : option keyid)           (* e.sec.sec_backend.get_signer(alg, sigkey): sigkey = None is
+                                                                           the ordinary call, Some K asks for a signer over a FOREIGN key *)
 | OSign (e : option keyid) (typ m rs sigalg : str) (h : option handle)  (* http_redirect_message(..., signer = a handle e holds) *)
 | OVerify (e : option keyid) (q : query) (cert sigkey : option keyid).  (* verify_redirect_signature(q, e.sec.sec_backend, cert, sigkey) *)
 
@@ -251,7 +252,7 @@ Inductive out :=
 
 Definition step (T : tables) (st : shared) (o : op) : shared * out :=
   match o with
-  | OGet e alg => let '(st', h) := get_signer T st e alg None in (st', OutHandle h)
+  | OGet e alg sk => let '(st', h) := get_signer T st e alg sk in (st', OutHandle h)
   | OSign e typ m rs sigalg h => (st, OutSigned (http_redirect_message T st typ m rs sigalg h))
   | OVerify e q cert sigkey => let '(st', r) := verify_redirect_signature T st e q cert sigkey in (st', OutVerified r)
   end.
@@ -264,7 +265,7 @@ Fixpoint run (T : tables) (st : shared) (tr : list op) : list out :=
 (* what a step stores in the shared table: (algorithm, key) *)
 Definition writes (o : op) : option (str * option keyid) :=
   match o with
-  | OGet e alg => Some (alg, e)
+  | OGet e alg sk => Some (alg, or_key sk e)
   | OSign _ _ _ _ _ _ => None
   | OVerify e q cert sigkey =>
       match lookup K_ALG (q_params q) with Some alg => Some (alg, or_key sigkey e) | None => None end
@@ -334,12 +335,16 @@ Definition made_sig (T : tables) (k : keyid) (typ m rs alg : str) : sigparam :=
 Definition all_keys (T : tables) (k : option keyid) : shared :=
   map (fun r => (fst r, {| so_digest := snd r; so_key := k |})) (t_algs T).
 
-(* scripts: sugar over [op] in which a Verify step refers to a query produced earlier in the same run *)
+(* scripts: sugar over [op] in which a Verify step refers to a query produced earlier in the same run.
+   An entity keeps TWO handle slots per algorithm: the one its latest ordinary get_signer(alg) returned and the one
+   its latest get_signer(alg, sigkey=K) returned. *)
 Inductive sop :=
 | SGet (e : keyid) (alg : str)
+| SGetK (e : keyid) (alg : str) (k : keyid)                  (* get_signer(alg, sigkey = K), K somebody else's key *)
 | SSign (e : keyid) (response : bool) (m rs alg : str)      (* http_redirect_message with the handle e obtained for alg *)
+| SSignK (e : keyid) (response : bool) (m rs alg : str)     (* ... with the handle e obtained for alg WITH a sigkey *)
 | SApply (e : keyid) (response : bool) (m rs alg : str)     (* apply_binding(sign=True, sigalg=alg) = get_signer ; sign *)
-| SVerify (e : keyid) (alg : str) (cert : option keyid).    (* the latest query made with SigAlg alg, else a junk one *)
+| SVerify (e : keyid) (alg : str) (cert sigkey : option keyid).   (* the latest query made with SigAlg alg, else a junk one *)
 
 Definition junk_query (alg : str) : query :=
   {| q_params := [(K_REQ, s2l "x"); (K_ALG, alg)]; q_sig := Some (SigJunk true) |}.
@@ -354,31 +359,47 @@ Fixpoint find_query (alg : str) (qs : list query) : query :=
 Definition remember (x : out) (made : list query) : list query :=
   match x with OutSigned (Ok q) => q :: made | _ => made end.
 
-(* the handle entity e holds for alg: the one returned by its latest get_signer(alg) *)
-Fixpoint held_handle (e : keyid) (alg : str) (held : list (keyid * str * option handle)) : option handle :=
+(* the handle entity e holds for alg in the ordinary (slot = false) / sigkey (slot = true) slot *)
+Definition held_t := list (keyid * str * bool * option handle).
+Fixpoint held_handle (e : keyid) (alg : str) (slot : bool) (held : held_t) : option handle :=
   match held with
   | [] => None
-  | (e', a', h) :: r => if (e =? e') && str_eqb alg a' then h else held_handle e alg r
+  | (e', a', s', h) :: r => if (e =? e') && str_eqb alg a' && Bool.eqb slot s' then h else held_handle e alg slot r
   end.
+Definition out_handle (x : out) : option handle := match x with OutHandle h => h | _ => None end.
 
-Fixpoint run_script (T : tables) (st : shared) (made : list query) (held : list (keyid * str * option handle))
+(* the operations a script step stands for are exactly [step]s of the transition system *)
+Fixpoint run_script (T : tables) (st : shared) (made : list query) (held : held_t)
     (s : list sop) : list val :=
   match s with
   | [] => []
   | SGet e alg :: r =>
-      let '(st', x) := step T st (OGet (Some e) alg) in
-      let h := match x with OutHandle h => h | _ => None end in
-      show_out x :: run_script T st' made ((e, alg, h) :: held) r
+      let '(st', x) := step T st (OGet (Some e) alg None) in
+      show_out x :: run_script T st' made ((e, alg, false, out_handle x) :: held) r
+  | SGetK e alg k :: r =>
+      let '(st', x) := step T st (OGet (Some e) alg (Some k)) in
+      show_out x :: run_script T st' made ((e, alg, true, out_handle x) :: held) r
   | SSign e resp m rs alg :: r =>
-      let '(st', x) := step T st (OSign (Some e) (if resp then K_RESP else K_REQ) m rs alg (held_handle e alg held)) in
+      let '(st', x) := step T st (OSign (Some e) (if resp then K_RESP else K_REQ) m rs alg (held_handle e alg false held)) in
+      show_out x :: run_script T st' (remember x made) held r
+  | SSignK e resp m rs alg :: r =>
+      let '(st', x) := step T st (OSign (Some e) (if resp then K_RESP else K_REQ) m rs alg (held_handle e alg true held)) in
       show_out x :: run_script T st' (remember x made) held r
   | SApply e resp m rs alg :: r =>
-      let '(st1, x1) := step T st (OGet (Some e) alg) in
-      let h := match x1 with OutHandle h => h | _ => None end in
-      let '(st2, x) := step T st1 (OSign (Some e) (if resp then K_RESP else K_REQ) m rs alg h) in
+      let '(st1, x1) := step T st (OGet (Some e) alg None) in
+      let '(st2, x) := step T st1 (OSign (Some e) (if resp then K_RESP else K_REQ) m rs alg (out_handle x1)) in
       show_out x :: run_script T st2 (remember x made) held r
-  | SVerify e alg cert :: r =>
-      let '(st', x) := step T st (OVerify (Some e) (find_query alg made) cert None) in
+  | SVerify e alg cert sk :: r =>
+      let '(st', x) := step T st (OVerify (Some e) (find_query alg made) cert sk) in
       show_out x :: run_script T st' made held r
   end.
 Definition show_script (T : tables) (s : list sop) : val := VL (run_script T (init_shared T) [] [] s).
+
+(* what the property says about one observed script step: an ordinary Sign / apply_binding step of entity e shows
+   e's own key, or nothing signed (no handle / unsupported algorithm: unsigned URL), or an exception *)
+Definition own_step (s : sop) (v : val) : Prop :=
+  match s with
+  | SSign e _ _ _ _ | SApply e _ _ _ _ =>
+      v = VL [VZ 1%Z; VZ (Z.of_N e)] \/ v = VL [VZ 1%Z; VNone] \/ exists err, v = VL [VZ 1%Z; VE err]
+  | _ => True
+  end.
